@@ -98,7 +98,16 @@ def build_all(ctx):
         except vcheck.BuildError as e:
             errs.append(str(e))
 
-    ths = [threading.Thread(target=one, args=(n,)) for n in EXES]
+    names = list(EXES)
+    if os.environ.get("VERIF_ONLY") == "step" and not ctx.replay:
+        # mutation experiments on the step-modelled code: only the executables the window templates use
+        keep = set(t[2] for t in WINDOW_TEMPLATES)
+        for n in names:
+            if n not in keep:
+                del EXES[n]
+        names = list(EXES)
+        ctx.coverage["restricted_run"] = "VERIF_ONLY=step"
+    ths = [threading.Thread(target=one, args=(n,)) for n in names]
     for t in ths: t.start()
     for t in ths: t.join()
     if errs:
@@ -450,6 +459,74 @@ def parked_striped_cases(pilots, logs):
     return out
 
 
+# ------------------------------------------------------------------------------------------------------
+# model-guided window schedules (lib/conc_windows2.py) for the step-modelled executables.  "Writes" of these containers are
+# the exchanges / CAS on lock cells, m_access, m_Owner: the victim is stalled right before each of them (and before every
+# other access: the capacity / lock-array loads of acquire()), the actor runs exactly through one of its own (measured on the
+# model in that state: lock taken, resize started, new lock array / bucket table installed) or through its whole program
+# (e.g. a complete resize), the victim gets r more steps, a third thread runs before / after / in between; the same again from
+# states in which a participant is parked right after one of its writes (inside a critical section, in the middle of a resize;
+# StripedSet only, like the stall points before accesses that are not writes: the probe runs of the cuckoo model for them take
+# minutes; an actor stopped after its k-th write, k up to 28, already is a thread parked inside its critical section / its
+# resize while the victim runs, and a victim stalled before a lock acquisition is stalled after the capacity / lock-array loads).
+#   (name, model, executable, variant, cfg tail [capacity, probe set, threshold, h1 mode, h2 mode], set-up, programs)
+#   striped variants: bit 0 resizing policy (load_factor / bucket_threshold), bit 1 refinable; cuckoo: bit 1 refinable
+WINDOW_TEMPLATES = [
+    ("st_resize_vs_ops", "striped", "striped_i0", 0, [16, 0, 1, 5, 0], [[1, 0, 11, 1]], [[[1, 1, 21, 1]], [[1, 2, 31, 1]], [[5, 0, 0, 0]]]),
+    ("st_resize_vs_ops_refinable", "striped", "striped_i0", 2, [16, 0, 1, 5, 0], [[1, 0, 11, 1]], [[[1, 1, 21, 1]], [[1, 2, 31, 1]], [[5, 0, 0, 0]]]),
+    ("st_same_key", "striped", "striped_c0", 2, [16, 0, 1, 0, 0], [[1, 0, 11, 1]], [[[5, 0, 0, 0]], [[1, 0, 31, 1]], [[8, 0, 0, 0]]]),
+    ("st_two_resizers", "striped", "striped_c0", 3, [16, 0, 2, 5, 0], [[1, 0, 11, 1], [1, 1, 12, 1]], [[[1, 2, 21, 1]], [[5, 1, 0, 0]], [[3, 3, 41, 1]]]),
+    ("st_pairs", "striped", "striped_i0", 2, [16, 0, 1, 6, 0], [], [[[1, 0, 11, 1], [5, 0, 0, 0]], [[1, 4, 21, 1], [5, 4, 0, 0]]]),
+    ("ck_relocate_vs_ops", "cuckoo", "cuckoo_i", 0, [2, 2, 1, 0, 5], [[1, 0, 11, 1]], [[[1, 2, 21, 1]], [[1, 4, 31, 1]], [[5, 0, 0, 0]]]),
+    ("ck_relocate_vs_ops_refinable", "cuckoo", "cuckoo_i", 2, [2, 2, 1, 0, 5], [[1, 0, 11, 1]], [[[1, 2, 21, 1]], [[1, 4, 31, 1]], [[5, 0, 0, 0]]]),
+    ("ck_same_key", "cuckoo", "cuckoo_c0", 2, [4, 2, 1, 0, 0], [[1, 1, 11, 1]], [[[5, 1, 0, 0]], [[1, 1, 31, 1]], [[8, 1, 0, 0]]]),
+    ("ck_resize", "cuckoo", "cuckoo_c0", 2, [2, 2, 1, 0, 6], [[1, 0, 11, 1], [1, 2, 12, 1]], [[[1, 4, 21, 1]], [[5, 2, 0, 0]], [[3, 1, 41, 1]]]),
+    ("ck_pairs", "cuckoo", "cuckoo_i", 2, [2, 2, 1, 0, 5], [], [[[1, 0, 11, 1], [5, 0, 0, 0]], [[1, 2, 21, 1], [5, 2, 0, 0]]]),
+    # two threads that both have to resize: keys 0, 1, 4, 5 share bucket 0 of table 0 (h1 = k >> 1, two buckets) and every key shares
+    # bucket 0 of table 1 (h2 = 16 k); at most two keys per bucket of table 0 once the capacity is 4 (no C17 drop)
+    ("ck_two_resizers", "cuckoo", "cuckoo_i", 0, [2, 2, 1, 3, 5], [[1, 0, 11, 1], [1, 1, 12, 1]], [[[1, 4, 21, 1]], [[1, 5, 31, 1]], [[5, 0, 0, 0]]]),
+    ("ck_two_resizers_refinable", "cuckoo", "cuckoo_c0", 2, [2, 2, 1, 3, 5], [[1, 0, 11, 1], [1, 1, 12, 1]], [[[1, 4, 21, 1]], [[1, 5, 31, 1]], [[8, 1, 0, 0]]]),
+    ("st_two_inserters_resize", "striped", "striped_i0", 2, [16, 0, 1, 5, 0], [[1, 0, 11, 1]], [[[1, 1, 21, 1]], [[1, 2, 31, 1]], [[8, 0, 0, 0]]]),
+]
+WINDOW_QUICK_PER_MODEL = 300
+WINDOW_QUICK_CANDIDATES = 4000
+WINDOW_THOROUGH_PER_MODEL = 12000
+
+
+def gen_window_cases(ctx, models, rng):
+    """-> ({executable: cases}, generator info per model)"""
+    import conc_windows2
+    out = {}
+    infos = {}
+    th = ctx.thorough()
+    for m in sorted(models):
+        templates = []
+        for name, mod, exe, v, tail, setup, parts in WINDOW_TEMPLATES:
+            if mod == m:
+                templates.append({"name": name, "cfg": [v] + tail + [NKEYS, LOOP_FUEL], "threads": [setup] + parts, "setup": 1, "exe": exe})
+        wdir = os.path.join(ctx.work, "wprobe_" + m)
+        cases, info = conc_windows2.expand(models[m], wdir, templates, "w%s_" % m[:2], fuel=STEP_LIMIT,
+                                           r_values=(0, 1, 2, 3, 5, 8, 12, 20) if th else (0, 1, 3, 8), read_points=(m == "striped"),
+                                           max_wv=12, max_wa=28, staged=(m == "striped"), max_ws=8 if th else 4, staged_max_wa=10 if th else 6,
+                                           staged_r_values=(0, 1, 2, 4, 8) if th else (0, 3), lazy=True, spin_cap=30, big=220)
+        info["enumerated"] = len(cases)
+        if th:
+            cases = conc_windows2.stratified(rng, cases, WINDOW_THOROUGH_PER_MODEL)
+        else:
+            cases = conc_windows2.stratified(rng, cases, WINDOW_QUICK_CANDIDATES)
+            paths = conc_windows2.model_paths(models[m], wdir, cases, "w" + m[:2], fuel=STEP_LIMIT)
+            cases, info["selection"] = conc_windows2.select_by_cover(rng, cases, paths, WINDOW_QUICK_PER_MODEL)
+        cases = conc_windows2.finalize(cases)
+        exe_of = {t["name"]: t["exe"] for t in templates}
+        for c in cases:
+            c["exe"] = exe_of[c["tpl"]]
+            out.setdefault(c["exe"], []).append(c)
+        info["run"] = len(cases)
+        info.pop("per_template", None)
+        infos[m] = info
+    return out, infos
+
+
 def gen_cases(rng, name, n, tag):
     src, grp, kind, variants = EXES[name]
     cases = []
@@ -682,6 +759,10 @@ def run(ctx):
             rc, plogs = run_impl(ctx, exes[name], spilots, "spilot_" + name)
             parked[name] = parked_striped_cases(spilots, plogs)
             allcases[name] = allcases[name] + parked[name]
+    # model-guided window schedules for the step-modelled executables
+    wcases, winfo = gen_window_cases(ctx, models, ctx.rng.fork())
+    for name, cs in wcases.items():
+        allcases[name] = allcases[name] + cs
     results = {}
 
     mresults = {}
@@ -718,6 +799,28 @@ def run(ctx):
         n, ok, steps, first = correspond(allcases[name], mresults[name][1], results[name][1])
         cs = corr.setdefault(m, {"compared": 0, "agree": 0, "impl_steps_compared": 0})
         cs["compared"] += n; cs["agree"] += ok; cs["impl_steps_compared"] += steps
+        wl = [c for c in allcases[name] if c.get("kind") == "window"]
+        if wl:
+            import conc_windows2
+            ws = conc_windows2.event_stats(wl, results[name][1])
+            wn = wok = 0
+            for c in wl:
+                mm = mresults[name][1].get(c["id"]); ii = results[name][1].get(c["id"])
+                if mm is None or ii is None or ii["end"] is None:
+                    continue
+                wn += 1
+                mm = dict(mm); mm["lines"] = [l for l in mm["lines"] if " ev dropped " not in l]
+                wok += 1 if conc_check.compare(mm, ii) is None else 0
+            agg = cs.setdefault("window_schedules", {"window_cases": 0, "with_failed_cas": 0, "with_retry_path": 0, "with_longer_path": 0, "failed_cas_events": 0,
+                                                     "with_failed_cas_or_retry": 0, "diverged": 0, "templates": {}, "generator": winfo.get(m),
+                                                     "rule": "victim stalled before each exchange / CAS (lock cells, m_access, m_Owner) and before every other access, actor runs exactly through one of "
+                                                             "its writes (measured on the model in that state) or its whole program (e.g. a complete resize), victim gets r more steps, third thread "
+                                                             "before / after / in between; also from states with a participant parked right after one of its writes; failed CAS here = a lock "
+                                                             "acquisition that met a held lock; with_retry_path = a thread executed more exchanges / CAS than in its solo run (spinning, re-acquire after a resize)"})
+            for k in ("window_cases", "with_failed_cas", "with_retry_path", "with_longer_path", "failed_cas_events", "with_failed_cas_or_retry"):
+                agg[k] += ws[k]
+            agg["diverged"] += wn - wok
+            agg["templates"].update(ws["templates"])
         if first is not None and nviol == 0:
             c, d = first
             # the correspondence broke: search for a concrete failure of the property on the real code.
